@@ -5,7 +5,7 @@ VERIF_REPO pointing at it. Every mutation keeps the repository's own tests passi
 reported as a VIOLATION."""
 import subprocess, sys, os
 V = os.path.dirname(os.path.dirname(os.path.abspath(__file__)))
-R = "/tmp/scratch-C10/repo"
+R = os.environ.get("C10_SCRATCH", "/tmp/scratch-C10/repo")
 OPT = R + "/tools/glbfloor/optimization.py"
 MOD = R + "/frame/netlist/module.py"
 MUTS = [
@@ -38,6 +38,21 @@ MUTS = [
   "    if module.name in allocation.allocations[cell_index].alloc and module.num_rectangles != 1:\n"),
  ("M11 recenter moves only the first rectangle in y", MOD,
   "            r.center.y += inc_y\n", "            r.center.y += inc_y if r is self.rectangles[0] else 0.0\n"),
+ # ---- the constraint system of optimize_allocation (Glb/System.v)
+ ("M12 the aggregated ratio of a movable hard module is not linked to its rectangles", OPT,
+  "            g.Equation(model.a[m][c] == g.sum([model.a[f\"{m}_{r}\"][c] for r in range(module.num_rectangles)]))\n",
+  "            pass\n"),
+ ("M13 ratio variables have no upper bound", OPT,
+  "                model.a[m][c] = g.Var(value=a_mc, lb=0, ub=1, name=f\"a_{m}_{c}\")\n",
+  "                model.a[m][c] = g.Var(value=a_mc, lb=0, name=f\"a_{m}_{c}\")\n"),
+ ("M14 capacity equation only over the soft and fixed modules (hard rectangles skipped)", OPT,
+  "        g.Equation(g.sum([model.a[m][c] for m in model.a.keys()]) <= 1)\n",
+  "        g.Equation(g.sum([model.a[mod.name][c] for mod in modules if not mod.is_hard or mod.is_fixed]) <= 1)\n"),
+ ("M15 the freezing rule uses >= threshold / <= 1 - threshold (ties frozen)", OPT,
+  "                    a_mc > threshold and all(get_a(allocation, module, d) > threshold for d in neigh_cells[c]) or \\\n"
+  "                    a_mc < 1 - threshold and all(get_a(allocation, module, d) < 1 - threshold for d in neigh_cells[c]):\n",
+  "                    a_mc >= threshold and all(get_a(allocation, module, d) >= threshold for d in neigh_cells[c]) or \\\n"
+  "                    a_mc <= 1 - threshold and all(get_a(allocation, module, d) <= 1 - threshold for d in neigh_cells[c]):\n"),
 ]
 
 
